@@ -421,7 +421,10 @@ using alphabet = std::tuple<lt::U, lt::B, lt::R, lt::S, lt::T, lt::F, lt::C, lt:
 #else
 using alphabet = std::tuple<lt::U, lt::B, lt::R, lt::T, lt::M, lt::w, lt::d>;    // 4-chains: reduced alphabet (see the report)
 #endif
-using unit = c14::chains<alphabet, C14_LEN, C14_SLICE>;
+#ifndef C14_SUB
+#define C14_SUB -1
+#endif
+using unit = c14::chains<alphabet, C14_LEN, C14_SLICE, C14_SUB>;
 
 void nmc_enumerate(const nmc::Tier& t, const nmc::Sink& emit) {
     if (C14_LEN >= 4 && !t.thorough()) return;      // 4-chains belong to the thorough tier
@@ -461,7 +464,11 @@ static il shape_il(const arr_t& a) { il r; for (size_t i = 0; i < (size_t)a.dim(
 // Two patterns are rejected by the COMPILER (fail types inside nmtools, so they are not instantiated; both are reported):
 //   NO_GRAPH: get_compute_graph of a non-ufunc operation (matmul) whose view operand is followed by an un-aliased leaf (CT_MAP_OUT_OF_RANGE)
 //   NO_APPLY: get_function_composition of a unary ufunc applied directly to view::alias(leaf, id) (GET_FUNCTION_UNSUPPORTED<alias view>)
+#ifdef C14_ASSUME_ALIAS_FIX      // build with this once get_function_composition skips an alias under a unary ufunc
+enum { ALL = 7, NO_GRAPH = 3, NO_APPLY = 7 };
+#else
 enum { ALL = 7, NO_GRAPH = 3, NO_APPLY = 6 };
+#endif
 #define XB [](const arr_t& a, const arr_t& b, const arr_t& m, int axis)
 #define HG []() -> HGraph
 static const auto& xprograms() {
